@@ -211,6 +211,7 @@ func vfAdversarialBFS(c *hx.Ctx, prefix string, depth int, full bool) {
 		}
 	}
 	refTime = vrt.Epoch0
+	vrt.SetPoolMode(vrt.PoolPlain)
 	cfgIdx := 0
 	for _, w := range []int{1, 2, 3} {
 		for _, nc := range []int{0, 1} {
@@ -331,7 +332,9 @@ func vfAdversarialBFS(c *hx.Ctx, prefix string, depth int, full bool) {
 								viol(prefix+"adversarial:reorder-buffer-outside-window", fmt.Sprintf("buffers sn=rcv_nxt%+d with window %d", d, k2.rcv_wnd), path)
 							}
 						}
-						if len(newSn) > 0 && prefix == "C04:" { // send-side window clause: C04 only (C05 is about crashes and buffering limits)
+						if prefix == "C10:" {
+							// only the emission-size clause is judged under C10
+						} else if len(newSn) > 0 && prefix == "C04:" { // send-side window clause: C04 only (C05 is about crashes and buffering limits)
 							una, rmt := preUna, preRmt
 							lim := min(k2.snd_wnd, rmt)
 							if isInput {
